@@ -21,6 +21,14 @@ pub struct Case {
     pub header: Option<String>,
     /// number of 429 responses before the 200 (1..=3: within the default policy's retries)
     pub n429: u8,
+    /// status of the error responses (default 429). 4xx other than 429 is final: one request, the
+    /// error is returned whatever headers it carries; 5xx is retried with the ordinary backoff
+    #[serde(default = "d429")]
+    pub status: u16,
+}
+
+fn d429() -> u16 {
+    429
 }
 
 pub fn all_cases() -> Vec<Case> {
@@ -31,7 +39,13 @@ pub fn all_cases() -> Vec<Case> {
             if h == Some("1") && n429 > 2 {
                 continue; // 3 s of waiting add nothing
             }
-            v.push(Case { header: h.map(str::to_string), n429 });
+            v.push(Case { header: h.map(str::to_string), n429, status: 429 });
+        }
+    }
+    // other error statuses carrying a Retry-After header
+    for status in [403u16, 404, 410, 500, 503] {
+        for h in [Some("0"), Some("1"), None] {
+            v.push(Case { header: h.map(str::to_string), n429: 2, status });
         }
     }
     v
@@ -63,7 +77,7 @@ async fn serve(listener: tokio::net::TcpListener, case: Case, log: Arc<Mutex<Vec
                     g.len()
                 };
                 let resp = if n <= usize::from(case.n429) {
-                    let mut r = String::from("HTTP/1.1 429 Too Many Requests\r\nContent-Length: 0\r\n");
+                    let mut r = format!("HTTP/1.1 {} Status\r\nContent-Length: 0\r\n", case.status);
                     if let Some(h) = &case.header {
                         r.push_str(&format!("Retry-After: {h}\r\n"));
                     }
@@ -107,13 +121,23 @@ pub fn check(c: &Case) -> Verdict {
         Err(_) => return Verdict::pass().class("VACUOUS:no-loopback"),
     };
     let times = log.lock().unwrap().clone();
-    let what = format!("Retry-After {:?}, {} x 429 then 200", c.header, c.n429);
+    let what = format!("Retry-After {:?}, {} x {} then 200", c.header, c.n429, c.status);
     let hint: Option<u64> = c.header.as_deref().and_then(|h| h.parse::<u64>().ok());
     let mut v = Verdict::pass().nontrivial(true).class(match (&c.header, hint) {
         (None, _) => "no-header",
         (Some(_), Some(_)) => "integer-seconds",
         (Some(_), None) => "header-not-an-integer",
     });
+    if c.status != 429 && (400..500).contains(&c.status) {
+        // a final answer: the first non-retryable error ends the call
+        return match r {
+            Err(_) => Verdict::fail("C14:cdn-429:download-does-not-return-within-120s", what),
+            Ok(Ok(_)) => Verdict::fail("C14:cdn-4xx:final-status-retried-until-success", format!("status {} with {what}: download returned Ok after {} requests", c.status, times.len())),
+            Ok(Err(_)) if times.len() != 1 => Verdict::fail("C14:cdn-4xx:final-status-requested-again", format!("status {} with {what}: the server saw {} requests, a non-retryable answer ends the call after 1", c.status, times.len())),
+            Ok(Err(_)) => v.class("final-4xx-with-retry-after"),
+        };
+    }
+    let hint = if c.status == 429 { hint } else { None };
     match r {
         Err(_) => return Verdict::fail("C14:cdn-429:download-does-not-return-within-120s", what),
         Ok(Err(e)) => return Verdict::fail("C14:cdn-429:gives-up-within-the-configured-retries", format!("{what}: download returned Err({e}) after {} requests; the default policy allows 3 retries", times.len())),
